@@ -76,5 +76,325 @@ theorem sum_mode_fixed [AddCommMonoid α] (a b : List Nat) (sn i : Nat) (hi : i 
   exact sum_single' (List.range sn) List.nodup_range i
     (fun x => ((allSubs a).map fun ja => G (ja ++ x :: jb)).sum) (List.mem_range.2 hi)
 
+
+theorem facProd_eq_range [CommSemiring α] (Ms : List (Mat α)) (j : List Nat) (r L : Nat)
+    (h1 : Ms.length = L) (h2 : j.length = L) :
+    facProd Ms j r = ((List.range L).map fun m => (Ms.getD m []).get (j.getD m 0) r).prod := by
+  unfold facProd
+  congr 1
+  apply List.ext_getElem
+  · simp [h1, h2]
+  · intro k hk1 hk2
+    simp only [List.length_map, List.length_range] at hk2
+    simp [List.getD_eq_getElem?_getD, List.getElem?_eq_getElem (h1 ▸ hk2), List.getElem?_eq_getElem (h2 ▸ hk2)]
+
+theorem range_filter_ne (N n : Nat) (hn : n < N) :
+    (List.range N).filter (· != n) = List.range n ++ (List.range (N - n - 1)).map (· + (n + 1)) := by
+  obtain ⟨c, rfl⟩ : ∃ c, N = n + 1 + c := ⟨N - n - 1, by omega⟩
+  rw [show n + 1 + c - n - 1 = c by omega, List.range_add, List.range_succ, List.filter_append, List.filter_append]
+  have h1 : (List.range n).filter (· != n) = List.range n := by
+    rw [List.filter_eq_self]; intro k hk; have := List.mem_range.1 hk; simp; omega
+  have h2 : ([n] : List Nat).filter (· != n) = [] := by simp
+  have h3 : ((List.range c).map (n + 1 + ·)).filter (· != n) = (List.range c).map (· + (n + 1)) := by
+    rw [List.filter_eq_self.2]
+    · apply List.map_congr_left; intro k _; omega
+    · intro k hk
+      obtain ⟨m, _, rfl⟩ := List.mem_map.1 hk
+      simp; omega
+  rw [h1, h2, h3, List.append_nil]
+
+/-- What `mttkrp` is specified to return, written over the two blocks of modes around `n`. -/
+theorem spec_mttkrp_blocks [CommSemiring α] (T : Dense α) (U : List (Mat α)) (n i r : Nat)
+    (a b : List Nat) (sn : Nat) (hs : T.shape = a ++ sn :: b) (hna : a.length = n) (hi : i < sn)
+    (hlen : U.length = T.shape.length) :
+    Spec.mttkrp T.den (fun m x c => (U.getD m []).get x c) (fun _ => 1) n i r =
+      ((allSubs b).map fun jb => ((allSubs a).map fun ja =>
+        T.data.getD (sub2ind a ja + numel a * (i + sn * sub2ind b jb)) 0 *
+          (facProd (U.take n) ja r * facProd (U.drop (n + 1)) jb r)).sum).sum := by
+  have hN : T.shape.length = n + 1 + b.length := by rw [hs]; simp [hna]; omega
+  unfold Spec.mttkrp Spec.sumOver
+  rw [one_mul]
+  show (((allSubs T.shape).filter fun k => k.getD n 0 == i).map _).sum = _
+  rw [hs, ← hna, sum_mode_fixed a b sn i hi]
+  apply sum_congr
+  intro jb hjb
+  apply sum_congr
+  intro ja hja
+  have hjal := (mem_allSubs.1 hja).length_eq
+  have hjbl := (mem_allSubs.1 hjb).length_eq
+  congr 1
+  · show T.data.getD (sub2ind T.shape (ja ++ i :: jb)) 0 = _
+    rw [hs, sub2ind_append _ _ _ _ hjal]
+    rfl
+  · show (((List.range T.shape.length).filter (· != a.length)).map _).prod = _
+    rw [hN, hna, range_filter_ne _ n (by omega), List.map_append, List.prod_append]
+    have hUt : (U.take n).length = n := by rw [List.length_take]; omega
+    have hUd : (U.drop (n + 1)).length = b.length := by rw [List.length_drop]; omega
+    rw [facProd_eq_range (U.take n) ja r n hUt (by rw [hjal, hna]),
+      facProd_eq_range (U.drop (n + 1)) jb r b.length hUd hjbl]
+    congr 1
+    · congr 1
+      apply List.map_congr_left
+      intro m hm
+      have hm' := List.mem_range.1 hm
+      have h1 : (ja ++ i :: jb).getD m 0 = ja.getD m 0 := by
+        rw [List.getD_eq_getElem?_getD, List.getElem?_append_left (by omega), ← List.getD_eq_getElem?_getD]
+      have h2 : (U.take n).getD m [] = U.getD m [] := by
+        simp [List.getD_eq_getElem?_getD, List.getElem?_take, hm']
+      rw [h1, h2]
+    · rw [show n + 1 + b.length - n - 1 = b.length by omega, List.map_map]
+      congr 1
+      apply List.map_congr_left
+      intro m _
+      have h1 : (ja ++ i :: jb).getD (m + (n + 1)) 0 = jb.getD m 0 := by
+        rw [List.getD_eq_getElem?_getD, List.getElem?_append_right (by omega), hjal, hna]
+        rw [show m + (n + 1) - n = m + 1 by omega]
+        simp [List.getD_eq_getElem?_getD]
+      have h2 : (U.drop (n + 1)).getD m [] = U.getD (m + (n + 1)) [] := by
+        simp [List.getD_eq_getElem?_getD, List.getElem?_drop, Nat.add_comm]
+      simp only [Function.comp_apply]
+      rw [h1, h2]
+
+
+theorem foldl_kr2_rows [Mul α] (rest : List (Mat α)) (P : Mat α) (R : Nat) (hP : ∀ row ∈ P, row.length = R)
+    (hrest : ∀ M ∈ rest, ∀ row ∈ M, row.length = R) : ∀ row ∈ rest.foldl kr2 P, row.length = R := by
+  induction rest generalizing P with
+  | nil => exact hP
+  | cons M rest ih =>
+    exact ih (kr2 P M) (kr2_rows P M R hP (hrest M (List.mem_cons_self ..)))
+      (fun M' hM' => hrest M' (List.mem_cons_of_mem _ hM'))
+
+theorem kr_rows [Mul α] (Ms : List (Mat α)) (R : Nat) (K : Mat α) (hK : khatrirao Ms true = .ok K)
+    (hR : ∀ M ∈ Ms, ∀ row ∈ M, row.length = R) : ∀ row ∈ K, row.length = R := by
+  unfold khatrirao at hK
+  simp only [if_true] at hK
+  cases hrev : Ms.reverse with
+  | nil => rw [hrev] at hK; cases hK
+  | cons M0 rest =>
+    rw [hrev] at hK
+    simp only at hK
+    split at hK
+    · injection hK with hK
+      subst hK
+      have hmem : ∀ M ∈ M0 :: rest, ∀ row ∈ M, row.length = R := by
+        intro M hM
+        exact hR M (List.mem_reverse.1 (hrev ▸ hM))
+      exact foldl_kr2_rows rest M0 R (hmem M0 (List.mem_cons_self ..))
+        (fun M hM => hmem M (List.mem_cons_of_mem _ hM))
+    · cases hK
+
+theorem allSubs_nil : allSubs ([] : List Nat) = [[]] := by decide
+
+theorem numel_pos (s : List Nat) (h : ∀ e ∈ s, 0 < e) : 0 < numel s := by
+  induction s with
+  | nil => simp
+  | cons a s ih =>
+    rw [numel_cons]
+    exact Nat.mul_pos (h a (List.mem_cons_self ..)) (ih (fun e he => h e (List.mem_cons_of_mem _ he)))
+
+/-- **Dense `mttkrp`**, all three branches (mode first / last / in the middle): entry `[i, r]` is
+`Σ_{k, k_n = i} X[k] ∏_{m ≠ n} U_m[k_m, r]`. -/
+theorem dense_mttkrpCore_spec [CommSemiring α] (T : Dense α) (U : List (Mat α)) (n R : Nat)
+    (hT : T.WF) (hN2 : 2 ≤ T.shape.length) (hn : n < T.shape.length) (hlen : U.length = T.shape.length)
+    (hrows : ∀ m, m < T.shape.length → m ≠ n → (U.getD m []).length = T.shape.getD m 0)
+    (hcols : ∀ m, m < T.shape.length → m ≠ n → ∀ row ∈ U.getD m [], row.length = R)
+    (hpos : ∀ e ∈ T.shape, 0 < e) :
+    ∃ V, T.mttkrpCore U n = .ok V ∧
+      ∀ i r, i < T.shape.getD n 0 → r < R →
+        V.get i r = Spec.mttkrp T.den (fun m x c => (U.getD m []).get x c) (fun _ => 1) n i r := by
+  set N := T.shape.length with hN
+  set a := T.shape.take n with ha
+  set b := T.shape.drop (n + 1) with hb
+  set sn := T.shape.getD n 0 with hsn
+  have hs : T.shape = a ++ sn :: b := by
+    rw [ha, hb, hsn, List.getD_eq_getElem?_getD, List.getElem?_eq_getElem hn]
+    simp
+  have hna : a.length = n := by rw [ha, List.length_take]; omega
+  have hbl : b.length = N - n - 1 := by rw [hb, List.length_drop]; omega
+  have hposm : ∀ m, m < N → 0 < T.shape.getD m 0 := by
+    intro m hm
+    apply hpos
+    rw [List.getD_eq_getElem?_getD, List.getElem?_eq_getElem hm]
+    exact List.getElem_mem _
+  -- facts about sub-lists of factors
+  have hgetU : ∀ m, m < N → U.getD m [] ∈ U := by
+    intro m hm
+    rw [List.getD_eq_getElem?_getD, List.getElem?_eq_getElem (hlen ▸ hm)]
+    exact List.getElem_mem _
+  have htake : ∀ M ∈ U.take n, ∃ m, m < n ∧ M = U.getD m [] := by
+    intro M hM
+    obtain ⟨m, hm, rfl⟩ := List.getElem_of_mem hM
+    rw [List.length_take] at hm
+    refine ⟨m, by omega, ?_⟩
+    rw [List.getElem_take, List.getD_eq_getElem?_getD, List.getElem?_eq_getElem (by omega)]
+    rfl
+  have hdrop : ∀ M ∈ U.drop (n + 1), ∃ m, n < m ∧ m < N ∧ M = U.getD m [] := by
+    intro M hM
+    obtain ⟨m, hm, rfl⟩ := List.getElem_of_mem hM
+    rw [List.length_drop] at hm
+    refine ⟨n + 1 + m, by omega, by omega, ?_⟩
+    rw [List.getElem_drop, List.getD_eq_getElem?_getD, List.getElem?_eq_getElem (by omega)]
+    rfl
+  have hRt : ∀ M ∈ U.take n, ∀ row ∈ M, row.length = R := by
+    intro M hM
+    obtain ⟨m, hm, rfl⟩ := htake M hM
+    exact hcols m (by omega) (by omega)
+  have hRd : ∀ M ∈ U.drop (n + 1), ∀ row ∈ M, row.length = R := by
+    intro M hM
+    obtain ⟨m, hm1, hm2, rfl⟩ := hdrop M hM
+    exact hcols m hm2 (by omega)
+  have hpt : ∀ M ∈ U.take n, 0 < M.length := by
+    intro M hM
+    obtain ⟨m, hm, rfl⟩ := htake M hM
+    rw [hrows m (by omega) (by omega)]; exact hposm m (by omega)
+  have hpd : ∀ M ∈ U.drop (n + 1), 0 < M.length := by
+    intro M hM
+    obtain ⟨m, hm1, hm2, rfl⟩ := hdrop M hM
+    rw [hrows m hm2 (by omega)]; exact hposm m hm2
+  have hmapt : (U.take n).map List.length = a := by
+    apply List.ext_getElem
+    · simp [hna, hlen]; omega
+    · intro m h1 h2
+      have hm : m < n := by rw [hna] at h2; exact h2
+      simp only [List.getElem_map, List.getElem_take, ha]
+      have := hrows m (by omega) (by omega)
+      rw [List.getD_eq_getElem?_getD, List.getElem?_eq_getElem (by omega), List.getD_eq_getElem?_getD,
+        List.getElem?_eq_getElem (by omega)] at this
+      exact this
+  have hmapd : (U.drop (n + 1)).map List.length = b := by
+    apply List.ext_getElem
+    · simp only [List.length_map, List.length_drop, hbl, hlen]; omega
+    · intro m h1 h2
+      have hm : m < N - n - 1 := by rw [hbl] at h2; exact h2
+      simp only [List.getElem_map, List.getElem_drop, hb]
+      have := hrows (n + 1 + m) (by omega) (by omega)
+      rw [List.getD_eq_getElem?_getD, List.getElem?_eq_getElem (by omega), List.getD_eq_getElem?_getD,
+        List.getElem?_eq_getElem (by omega)] at this
+      exact this
+  -- guards
+  have g1 : ¬ (N < 2) := by omega
+  have g2 : (U.length != N) = false := by rw [hlen]; exact bne_self_eq_false _
+  have g3 : ((List.range N).any fun i => i != n && (U.getD i []).length != T.shape.getD i 0) = false := by
+    rw [List.any_eq_false]
+    intro m hm
+    have hm' := List.mem_range.1 hm
+    by_cases hmn : m = n
+    · simp [hmn]
+    · have := hrows m hm' hmn
+      rw [this]
+      simp
+  have hRval : (if (n == 0) = true then (U.getD 1 []).ncols else (U.getD 0 []).ncols) = R := by
+    by_cases h0 : n = 0
+    · subst h0
+      simp only [beq_self_eq_true, if_true]
+      exact ncols_eq _ R (hcols 1 (by omega) (by omega)) (by rw [hrows 1 (by omega) (by omega)]; exact hposm 1 (by omega))
+    · have : (n == 0) = false := by simpa using h0
+      rw [this]
+      simp only [Bool.false_eq_true, if_false]
+      exact ncols_eq _ R (hcols 0 (by omega) (by omega)) (by rw [hrows 0 (by omega) (by omega)]; exact hposm 0 (by omega))
+  have hszl : numel (T.shape.take n) = numel a := rfl
+  have hszr : numel (T.shape.drop (n + 1)) = numel b := rfl
+  have htarget := fun i r (hi : i < sn) => spec_mttkrp_blocks T U n i r a b sn hs hna hi hlen
+  unfold Dense.mttkrpCore
+  simp only [← hN, g1, g2, g3, if_false, Bool.false_eq_true, hRval, ← hsn, hszl, hszr]
+  by_cases h0 : n = 0
+  · -- first mode
+    subst h0
+    have ha0 : a = [] := by rw [ha]; rfl
+    have hne : U.drop 1 ≠ [] := by
+      intro h; have := congrArg List.length h; rw [List.length_drop, hlen] at this; simp at this; omega
+    obtain ⟨K, hK, _⟩ := kr_exists (U.drop 1) R hne hRd hpd
+    simp only [beq_self_eq_true, if_true, hK]
+    refine ⟨_, rfl, ?_⟩
+    intro i r hi hr
+    rw [htarget i r hi, mulD_get _ _ _ _ _ _ _ hi hr, ha0, allSubs_nil]
+    unfold sumRange
+    rw [sum_range_allSubs b]
+    apply sum_congr
+    intro jb hjb
+    have hjbb := mem_allSubs.1 hjb
+    have hlt : sub2ind b jb < numel b := sub2ind_lt hjbb
+    rw [reshape2_get _ _ _ _ _ hi hlt]
+    have hke := kr_entry (U.drop 1) R K hK hne hRd jb (by rw [hmapd]; exact hjbb) r hr
+    rw [hmapd] at hke
+    rw [hke]
+    simp [facProd, sub2ind]
+  · have hn0 : (n == 0) = false := by simpa using h0
+    simp only [hn0, Bool.false_eq_true, if_false]
+    by_cases hlast : n = N - 1
+    · -- last mode
+      have hl : (n == N - 1) = true := by simpa using hlast
+      simp only [hl, if_true]
+      have hb0 : b = [] := by
+        apply List.length_eq_zero_iff.1; rw [hbl]; omega
+      have htk : U.take (N - 1) = U.take n := by rw [hlast]
+      have hne : U.take n ≠ [] := by
+        intro h; have := congrArg List.length h; rw [List.length_take, hlen] at this; simp at this; omega
+      obtain ⟨K, hK, _⟩ := kr_exists (U.take n) R hne hRt hpt
+      rw [htk, hK]
+      refine ⟨_, rfl, ?_⟩
+      intro i r hi hr
+      rw [htarget i r hi, mulD_get _ _ _ _ _ _ _ hi hr, hb0, allSubs_nil]
+      simp only [List.map_cons, List.map_nil, List.sum_cons, List.sum_nil, add_zero]
+      unfold sumRange
+      rw [sum_range_allSubs a]
+      apply sum_congr
+      intro ja hja
+      have hjab := mem_allSubs.1 hja
+      have hlt : sub2ind a ja < numel a := sub2ind_lt hjab
+      rw [tr_get _ _ _ _ _ hlt hi, reshape2_get _ _ _ _ _ hlt hi]
+      have hke := kr_entry (U.take n) R K hK hne hRt ja (by rw [hmapt]; exact hjab) r hr
+      rw [hmapt] at hke
+      rw [hke]
+      simp [facProd, sub2ind]
+    · -- a mode in the middle
+      have hl : (n == N - 1) = false := by simpa using hlast
+      simp only [hl, Bool.false_eq_true, if_false]
+      have hne1 : U.drop (n + 1) ≠ [] := by
+        intro h; have := congrArg List.length h; rw [List.length_drop, hlen] at this; simp at this; omega
+      have hne2 : U.take n ≠ [] := by
+        intro h; have := congrArg List.length h; rw [List.length_take, hlen] at this; simp at this; omega
+      obtain ⟨Kr, hKr, hKrl⟩ := kr_exists (U.drop (n + 1)) R hne1 hRd hpd
+      obtain ⟨Kl, hKl, hKll⟩ := kr_exists (U.take n) R hne2 hRt hpt
+      rw [hKr, hKl]
+      have hposb : ∀ e ∈ b, 0 < e := fun e he => hpos e (by rw [hs]; simp [he])
+      have hposa : ∀ e ∈ a, 0 < e := fun e he => hpos e (by rw [hs]; simp [he])
+      have hKrpos : 0 < Kr.length := by rw [hKrl, hmapd]; exact numel_pos b hposb
+      have hKlpos : 0 < Kl.length := by rw [hKll, hmapt]; exact numel_pos a hposa
+      have hc1 : Kr.ncols = R := ncols_eq Kr R (kr_rows _ R Kr hKr hRd) hKrpos
+      have hc2 : Kl.ncols = R := ncols_eq Kl R (kr_rows _ R Kl hKl hRt) hKlpos
+      simp only [hc1, hc2, bne_self_eq_false, Bool.or_self, Bool.false_eq_true, if_false]
+      refine ⟨_, rfl, ?_⟩
+      intro i r hi hr
+      rw [htarget i r hi, get_tab _ _ _ _ _ hi hr]
+      unfold sumRange
+      rw [sum_range_allSubs a, sum_comm]
+      apply sum_congr
+      intro ja hja
+      have hjab := mem_allSubs.1 hja
+      have hlt : sub2ind a ja < numel a := sub2ind_lt hjab
+      have hp : sub2ind a ja + numel a * i < numel a * sn := by
+        calc sub2ind a ja + numel a * i < numel a + numel a * i := by omega
+          _ = numel a * (i + 1) := by rw [Nat.mul_succ]; omega
+          _ ≤ numel a * sn := Nat.mul_le_mul_left _ hi
+      rw [mulD_get _ _ _ _ _ _ _ hp hr]
+      unfold sumRange
+      rw [sum_range_allSubs b, ← List.sum_map_mul_right]
+      apply sum_congr
+      intro jb hjb
+      have hjbb := mem_allSubs.1 hjb
+      have hltb : sub2ind b jb < numel b := sub2ind_lt hjbb
+      rw [reshape2_get _ _ _ _ _ hp hltb]
+      have hke1 := kr_entry (U.drop (n + 1)) R Kr hKr hne1 hRd jb (by rw [hmapd]; exact hjbb) r hr
+      have hke2 := kr_entry (U.take n) R Kl hKl hne2 hRt ja (by rw [hmapt]; exact hjab) r hr
+      rw [hmapd] at hke1
+      rw [hmapt] at hke2
+      rw [hke1, hke2]
+      have hidx : sub2ind a ja + numel a * i + numel a * sn * sub2ind b jb =
+          sub2ind a ja + numel a * (i + sn * sub2ind b jb) := by
+        rw [Nat.mul_add, Nat.mul_assoc, Nat.add_assoc]
+      rw [hidx]
+      ring
+
 end ML
 end Pyttb
